@@ -434,7 +434,9 @@ func registerPebbleModel(in *Interp) {
 			return in.mkErr(concStr("gob: bad data"), nil, "gob")
 		}
 		dst := a[1].(IfaceVal).v.(*Pointer)
-		dst.store(copyVal(payload))
+		// gob omits zero-valued fields from the stream: decoding into a target that already holds
+		// data leaves such fields as they are (matters when a decode target is reused)
+		dst.store(gobMerge(in, p, dst.load(), copyVal(payload)))
 		return IfaceVal{}
 	}
 	_ = types.Typ
@@ -530,4 +532,60 @@ func init() {
 	vxExtra["vxInterfered"] = func(in *Interp, p *Path, fr *Frame, a []Val, s ssa.CallInstruction) Val {
 		return mkBool(p.stubs["interfere.done"] != nil)
 	}
+}
+
+// gobMerge returns what a gob decoder leaves in a target holding `old` after decoding `nw`.
+func gobMerge(in *Interp, p *Path, old, nw Val) Val {
+	os_, ok1 := old.(*StructVal)
+	ns, ok2 := nw.(*StructVal)
+	if !ok1 || !ok2 {
+		return nw
+	}
+	out := &StructVal{f: make([]Val, len(ns.f))}
+	for i := range ns.f {
+		if _, isStruct := ns.f[i].(*StructVal); isStruct {
+			out.f[i] = gobMerge(in, p, os_.f[i], ns.f[i])
+			continue
+		}
+		oz := isZeroVal(in, p, os_.f[i])
+		if oz.C && oz.B {
+			out.f[i] = ns.f[i] // target field is zero: the result is the payload's field either way
+			continue
+		}
+		nz := isZeroVal(in, p, ns.f[i])
+		if p.branch(nz) {
+			out.f[i] = os_.f[i] // field absent from the stream
+		} else {
+			out.f[i] = ns.f[i]
+		}
+	}
+	return out
+}
+
+func isZeroVal(in *Interp, p *Path, v Val) *Term {
+	switch x := v.(type) {
+	case *Term:
+		switch x.K {
+		case KBool:
+			return p.not(x)
+		case KFP:
+			return p.fpCmp("fp.eq", x, mkF64(0))
+		default:
+			return p.bvCmp("=", x, mkBV(x.W, 0))
+		}
+	case StringVal:
+		return p.bvCmp("=", x.n, mkInt(0))
+	case SliceVal:
+		if x.back == nil {
+			return termTrue
+		}
+		return p.bvCmp("=", x.n, mkInt(0))
+	case *Pointer:
+		return mkBool(x.isNil())
+	case MapVal:
+		return mkBool(x.m == nil || len(x.m.keys) == 0)
+	case IfaceVal:
+		return mkBool(x.t == nil)
+	}
+	return termFalse
 }
